@@ -10,6 +10,15 @@ N-RET    ``t = E; return t``  ->  ``return E``     (t a plain local name assigne
          other observer)
 N-NOT    ``if not c: A else: B``  ->  ``if c: B else: A``  and  ``x if not c else y`` -> ``y if c else x``
          (no elif chain is reordered: only a plain else is swapped)
+N-IFEXP  ``return a if c else b`` -> ``if c: return a / else: return b``; ``x = a if c else b`` likewise
+         (only when the conditional expression is the whole right-hand side)
+N-TESTVAR ``t = E; if t: ...`` -> ``if E: ...`` when ``t`` is read nowhere else in the function
+N-LOOP   ``acc = []; for x in xs: [t = f(x);] acc.append(g(t))``  ->  ``acc = [g(f(x)) for x in xs]`` - also
+         nested loops, one ``if`` filter without else, ``acc += [e]``, ``d = {}; d[k] = v`` (dict
+         comprehension) and ``s = set(); s.add(e)``.  Temporaries of the body are inlined when they are
+         assigned once, read once and not used outside the loop.  Preserves behaviour for side-effect
+         free element expressions (the package's are: constructors of SymPy objects and pure helpers);
+         the accumulator must not be mentioned between its creation and the loop
 N-CMP    ``K == x`` -> ``x == K`` for a literal K (same for ``!=``); for two non-literal operands the
          operand with the smaller source text goes left.  ``==``/``!=`` of the objects this package
          compares (ints, strings, symbols, tuples, sets) are symmetric; operands are not re-evaluated,
@@ -96,11 +105,147 @@ class _Normalizer(ast.NodeTransformer):
                 for st in block:
                     if not isinstance(st, (ast.FunctionDef, ast.AsyncFunctionDef, ast.ClassDef)):
                         self._blocks(st, captured)
+                block = [self._desugar_ifexp(st) for st in block]
+                for st in block:  # the freshly made branches are blocks too (nothing to fold inside them)
+                    pass
+                block = self._fold_test_temps(block, self._loads)
+                block = self._fold_loops(block)
                 setattr(node, field, self._fold_returns(block, captured))
         for h in getattr(node, "handlers", []) or []:
             self._blocks(h, captured)
         for c in getattr(node, "cases", []) or []:
             self._blocks(c, captured)
+
+    # ---- N-IFEXP / N-TESTVAR (statement level, applied to every block of a function)
+    @staticmethod
+    def _desugar_ifexp(st: ast.stmt) -> ast.stmt:
+        """`return a if c else b` -> `if c: return a / else: return b`; `x = a if c else b` likewise."""
+        if isinstance(st, ast.Return) and isinstance(st.value, ast.IfExp):
+            e = st.value
+            return ast.copy_location(ast.If(test=e.test, body=[ast.copy_location(ast.Return(value=e.body), st)],
+                                            orelse=[ast.copy_location(ast.Return(value=e.orelse), st)]), st)
+        if isinstance(st, ast.Assign) and isinstance(st.value, ast.IfExp) and len(st.targets) == 1 and isinstance(st.targets[0], ast.Name):
+            e = st.value
+            mk = lambda v: ast.copy_location(ast.Assign(targets=[ast.Name(id=st.targets[0].id, ctx=ast.Store())], value=v), st)  # noqa: E731
+            return ast.copy_location(ast.If(test=e.test, body=[mk(e.body)], orelse=[mk(e.orelse)]), st)
+        return st
+
+    def _fold_test_temps(self, body: list[ast.stmt], loads: dict[str, int]) -> list[ast.stmt]:
+        """`t = E; if t: ...` -> `if E: ...` when t is read nowhere else in the function."""
+        out: list[ast.stmt] = []
+        for st in body:
+            if (isinstance(st, ast.If) and isinstance(st.test, ast.Name) and out and isinstance(out[-1], ast.Assign)
+                    and len(out[-1].targets) == 1 and isinstance(out[-1].targets[0], ast.Name)
+                    and out[-1].targets[0].id == st.test.id and loads.get(st.test.id, 0) == 1):
+                assign = out.pop()
+                out.append(ast.copy_location(ast.If(test=assign.value, body=st.body, orelse=st.orelse), st))
+            else:
+                out.append(st)
+        return out
+
+    # ---- N-LOOP: accumulator loops -> comprehensions
+    def _inline_body_temps(self, body: list[ast.stmt]) -> list[ast.stmt] | None:
+        """`a = E1; b = f(a); acc.append(g(b))` -> `acc.append(g(f(E1)))`: temporaries that are assigned once
+        in the loop body, read exactly once later in the same body and nowhere else in the function."""
+        import copy
+
+        body = copy.deepcopy(list(body))  # never touch the original statements: the caller may keep them
+        changed = True
+        while changed and len(body) > 1:
+            changed = False
+            st = body[0]
+            if not (isinstance(st, (ast.Assign, ast.AnnAssign)) and st.value is not None):
+                return None
+            tgt = st.targets[0] if isinstance(st, ast.Assign) and len(st.targets) == 1 else st.target if isinstance(st, ast.AnnAssign) else None
+            if not isinstance(tgt, ast.Name) or self._loads.get(tgt.id, 0) != 1 or self._stores.get(tgt.id, 0) != 1:
+                return None
+            uses = [n for rest in body[1:] for n in ast.walk(rest) if isinstance(n, ast.Name) and n.id == tgt.id and isinstance(n.ctx, ast.Load)]
+            if len(uses) != 1:
+                return None
+            value = st.value
+
+            class _Sub(ast.NodeTransformer):
+                def visit_Name(self, n):  # noqa: N802
+                    return value if n is uses[0] else n
+
+            body = [_Sub().visit(rest) for rest in body[1:]]
+            changed = True
+        return body
+
+    def _as_comprehension(self, loop: ast.For, acc: str, kind: str):
+        """(element or (key, value), generators) if the loop only feeds the accumulator."""
+        if loop.orelse:
+            return None
+        body = self._inline_body_temps(loop.body)
+        if body is None or len(body) != 1:
+            return None
+        st = body[0]
+        gen = ast.comprehension(target=loop.target, iter=loop.iter, ifs=[], is_async=0)
+        if isinstance(st, ast.If) and not st.orelse and len(st.body) == 1:
+            gen.ifs.append(st.test)
+            st = st.body[0]
+        if isinstance(st, ast.For):
+            inner = self._as_comprehension(st, acc, kind)
+            if inner is None:
+                return None
+            elt, gens = inner
+            return elt, [gen, *gens]
+        uses_acc = lambda e: any(isinstance(n, ast.Name) and n.id == acc for n in ast.walk(e))  # noqa: E731
+        if kind == "list":
+            if (isinstance(st, ast.Expr) and isinstance(st.value, ast.Call) and isinstance(st.value.func, ast.Attribute) and st.value.func.attr == "append"
+                    and isinstance(st.value.func.value, ast.Name) and st.value.func.value.id == acc and len(st.value.args) == 1 and not st.value.keywords
+                    and not uses_acc(st.value.args[0])):
+                return st.value.args[0], [gen]
+            if (isinstance(st, ast.AugAssign) and isinstance(st.op, ast.Add) and isinstance(st.target, ast.Name) and st.target.id == acc
+                    and isinstance(st.value, ast.List) and len(st.value.elts) == 1 and not uses_acc(st.value)):
+                return st.value.elts[0], [gen]
+        if kind == "set":
+            if (isinstance(st, ast.Expr) and isinstance(st.value, ast.Call) and isinstance(st.value.func, ast.Attribute) and st.value.func.attr == "add"
+                    and isinstance(st.value.func.value, ast.Name) and st.value.func.value.id == acc and len(st.value.args) == 1 and not uses_acc(st.value.args[0])):
+                return st.value.args[0], [gen]
+        if kind == "dict":
+            if (isinstance(st, ast.Assign) and len(st.targets) == 1 and isinstance(st.targets[0], ast.Subscript) and isinstance(st.targets[0].value, ast.Name)
+                    and st.targets[0].value.id == acc and not uses_acc(st.value) and not uses_acc(st.targets[0].slice)):
+                return (st.targets[0].slice, st.value), [gen]
+        return None
+
+    def _fold_loops(self, body: list[ast.stmt]) -> list[ast.stmt]:
+        out = list(body)
+        i = 0
+        while i < len(out):
+            st = out[i]
+            kind = acc = None
+            value = st.value if isinstance(st, (ast.Assign, ast.AnnAssign)) else None
+            tgt = st.targets[0] if isinstance(st, ast.Assign) and len(st.targets) == 1 else st.target if isinstance(st, ast.AnnAssign) else None
+            if isinstance(tgt, ast.Name) and value is not None:
+                if isinstance(value, ast.List) and not value.elts:
+                    kind = "list"
+                elif isinstance(value, ast.Dict) and not value.keys:
+                    kind = "dict"
+                elif isinstance(value, ast.Call) and isinstance(value.func, ast.Name) and value.func.id in {"set", "list", "dict"} and not value.args and not value.keywords:
+                    kind = value.func.id
+                acc = tgt.id
+            if kind is not None:
+                # the next statement that mentions the accumulator must be the feeding loop
+                j = i + 1
+                while j < len(out) and not any(isinstance(n, ast.Name) and n.id == acc for n in ast.walk(out[j])):
+                    j += 1
+                if j < len(out) and isinstance(out[j], ast.For):
+                    res = self._as_comprehension(out[j], acc, kind)
+                    if res is not None:
+                        elt, gens = res
+                        if kind == "dict":
+                            comp = ast.DictComp(key=elt[0], value=elt[1], generators=gens)
+                        elif kind == "set":
+                            comp = ast.SetComp(elt=elt, generators=gens)
+                        else:
+                            comp = ast.ListComp(elt=elt, generators=gens)
+                        new = ast.copy_location(ast.Assign(targets=[ast.Name(id=acc, ctx=ast.Store())], value=ast.copy_location(comp, out[j])), out[j])
+                        out[j] = new
+                        del out[i]
+                        continue
+            i += 1
+        return out
 
     def visit_FunctionDef(self, node: ast.FunctionDef):
         self.generic_visit(node)
@@ -108,6 +253,16 @@ class _Normalizer(ast.NodeTransformer):
         for inner in ast.walk(node):
             if inner is not node and isinstance(inner, (ast.FunctionDef, ast.AsyncFunctionDef, ast.Lambda)):
                 captured |= {n.id for n in ast.walk(inner) if isinstance(n, ast.Name)}
+        loads: dict[str, int] = {}
+        for n in ast.walk(node):
+            if isinstance(n, ast.Name) and isinstance(n.ctx, ast.Load):
+                loads[n.id] = loads.get(n.id, 0) + 1
+        self._loads = loads
+        stores: dict[str, int] = {}
+        for n in ast.walk(node):
+            if isinstance(n, ast.Name) and isinstance(n.ctx, ast.Store):
+                stores[n.id] = stores.get(n.id, 0) + 1
+        self._stores = stores
         self._blocks(node, captured)
         return node
 
